@@ -35,8 +35,10 @@ def run(ctx):
     progs, pool = F.c05_siblings(ctx.tier, rnd)
     agg = run_family("C05sib", progs, sorted(set(pool) | {"error"}), dev=dev, invariants=INVS, perms=(0, 1), timeout=900)
     ctx.add_family(agg)
-    # globals defined (or re-defined) inside macros persist after the macro returns; macro locals do not escape
-    mprogs = [p for p in F.c09_family(ctx.tier, rnd) if p["fam"].startswith(("C09:P2", "C09:P7"))]
+    # globals defined (or re-defined) inside macros persist after the macro returns; macro locals do not escape; a local
+    # of the macro keeps hiding a global of its name while a slot inside its element is filled (P11-P13), assignments
+    # made on a copy of the scope do not come back (P9)
+    mprogs = [p for p in F.c09_family(ctx.tier, rnd) if p["fam"].startswith(("C09:P2", "C09:P7", "C09:P9", "C09:P11", "C09:P12", "C09:P13"))]
     agg = run_family("C05macros", mprogs, ["x", "y", "g", "macroname", "error"], dev=dev, invariants=INVS, perms=(0,), timeout=900)
     ctx.add_family(agg)
     # names bound inside an expression (lambda parameters, comprehension variables) are local to it: the template's
